@@ -4,6 +4,7 @@
   model's `skipReason`.  `Generated/C08Tables.lean` is written by harness/props/c08.py (`tables`).
 -/
 import LccModel.Model.RunAccept
+import LccModel.Model.RunAgain
 import LccModel.Generated.C08Tables
 
 namespace LccModel.Generated.C08
@@ -50,5 +51,34 @@ def evalHandle (r : String × Bool × Bool) : String :=
     s!"{effect}+{errs}err"
 
 theorem handle_exception_table_agrees : ∀ r ∈ handleExcTable, evalHandle r.1 = r.2 := by decide +kernel
+
+/-! Third table: a NEW `RunContext` created (as `_run_suites` does at every call) after ANOTHER context has handled an exception of
+    every class — and was interrupted on top — over the SAME suite / test objects: what the new one answers for a test of the
+    suite, of a sub-suite and of another suite.  Model side: the flags the first context ends with (`Run.handleException`, as in
+    the second table, plus the interrupt) go through `RunAgain.nextFlags`; `skipReason` is asked on the result. -/
+
+open LccModel.Report LccModel.Run LccModel.Session in
+def evalFresh (r : String × Bool × Bool) : String :=
+  let (name, sub, withSuite) := r
+  match ExcClass.ofName name sub with
+  | none => "unknown class"
+  | some c =>
+    let prog : Run.M Unit := do
+      Run.sop 0 (.startTest ["s", "t"] (Run.mdOf "t" 0))
+      Run.sop 0 (.setStep "body")
+      Run.handleException c.kind (some ["s"]) withSuite
+    let ts : Run.TS := (prog.run default).2
+    let prev : Flags := { abortAll := ts.abortAll, abortedSuites := ts.abortedSuites, failed := true, pending := false,
+                          interrupted := true }
+    let f := RunAgain.nextFlags prev
+    let skipped (testSuite : Path) : Bool :=
+      (skipReason f.interrupted f.pending f.abortAll (f.abortedSuites.contains (some testSuite)) false f.failed true).isSome
+    match skipped ["s"], skipped ["s", "sub"], skipped ["o"] with
+      | false, false, false => "none"
+      | true, false, false => "abortSuite"
+      | true, true, true => "abortAll"
+      | _, _, _ => "other"
+
+theorem fresh_context_table_agrees : ∀ r ∈ freshContextTable, evalFresh r.1 = r.2 := by decide +kernel
 
 end LccModel.Generated.C08
